@@ -193,6 +193,7 @@ class Engine:
         self.inlined = set()
         self.notes = []
         self.shared_types = {}
+        self.external_result_types = {}  # dotted external constructor -> name of the shared abstract type of its result
         self.bounded = None  # refutation mode: sequences have at most this many items, spec quantifiers are expanded
 
     def intern(self, obj, key=None):
